@@ -31,6 +31,9 @@ class Constant(ASTNode):
                 out_str = format(Decimal(out_str), 'f')
                 if '.' not in out_str:
                     out_str += '.0'
+        elif isinstance(self.value, Decimal) and self.value.is_finite():
+            # str() may use an exponent (1E-7), number tokens have none: write all the digits
+            out_str = format(self.value, 'f')
         else:
             out_str = str(self.value)
         return out_str
